@@ -937,7 +937,7 @@ def campaign_hex(ctx):
         for ln, n in ([(65535, 16), (65536, 16), (65537, 7), (65536 + 63, 64)] + ([(65536, 1), (70000, 33), (66000, 3)] if ctx.thorough else [])):
             ctx.check_case([big[:ln], n], orc)
         ctx.exhaustive("hex: lengths 65535/65536/65537 (4- vs 8-digit offset column)")
-    strat = st.tuples(st.binary(max_size=300), st.integers(1, 64)).map(list)
+    strat = st.tuples(st.binary(max_size=300), st.one_of(st.integers(1, 64), st.sampled_from([65, 100, 128, 255, 256, 257, 1000]))).map(list)
     ctx.search(strat, orc, ctx.budget(1500, 40000))
 campaign_hex.shards = (1, 2)
 
